@@ -89,6 +89,7 @@ package conversion
 //@   ensures[C20] forall t reflect.Value {t.rlen} :: old(allocated(rroot(t))) && !within(t, v) ==> t.rlen == old(t.rlen)
 //@   ensures[C20] err == nil ==> rkind(w) == 21
 //@   call SetMapIndex#1: assert[C20] recv == v && arg0 == relem(key) && arg1 == relem(el)
+//@   call SetMapIndex#1: assert[C20] iterfresh(rroot(arg0)) && iterfresh(rroot(arg1))
 //@   call SetMapIndex#1: assert[C20] rbase(key).rfrom == rbase(k) && rbase(el).rfrom == rbase(rmapidx(w, k))
 //@   loop 1:
 //@     invariant rkind(w) == 21
